@@ -540,6 +540,26 @@ MultiIndexSet addExclusiveChildren(const MultiIndexSet &tensors, const MultiInde
 }
 
 /*!
+ * \internal
+ * \ingroup TasmanianMultiIndexManipulations
+ * \brief Returns \b true if every dimension has a level limit and \b num_points already equals the number of points of the full tensor grid allowed by the limits.
+ *
+ * Used by the refinement loops that increase the level until enough new points are found,
+ * when the limits are saturated no new point can ever be found.
+ * \endinternal
+ */
+inline bool limitsSaturated(std::vector<int> const &level_limits, std::function<int(int)> getNumPoints, int num_points){
+    if (level_limits.empty()) return false;
+    for(auto l : level_limits) if (l < 0) return false; // unrestricted direction
+    long long max_points = 1;
+    for(auto l : level_limits){
+        max_points *= (long long) getNumPoints(l);
+        if (max_points > (long long) num_points) return false;
+    }
+    return true;
+}
+
+/*!
  * \ingroup TasmanianMultiIndexManipulations
  * \brief Converts int-indexes to double-valued abscissas using the provided rule.
  *
